@@ -459,6 +459,31 @@ pub fn run_live(ctx: &mut Ctx) {
             ctx.emit(&format!("c04 eval 1 {} {} {}", ip_token(&peer), hex(rnd), rt), ans);
             ctx.stat(&format!("live_tcp_{}{}", ans, if dual { "_dual_stack" } else { "" }));
         }
+        // ---- TCP: the same hello spread over two TLS records: the endpoint's look at the first record cannot determine
+        // the random (C12), so the rules see it as unavailable - lists with a random pattern fail closed ----
+        for (ri, rnd) in randoms.iter().enumerate().take(if ctx.thorough() { 8 } else { 3 }) {
+            let mut hello = client_hello(snis[(ri + li) % snis.len()]);
+            hello[11..43].copy_from_slice(rnd);
+            let k = [4usize, 20, 39][ri % 3];
+            let body = hello[5..].to_vec();
+            let mut framed = vec![];
+            for part in [&body[..k], &body[k..]] {
+                framed.extend_from_slice(&[22, hello[1], hello[2]]);
+                framed.extend_from_slice(&(part.len() as u16).to_be_bytes());
+                framed.extend_from_slice(part);
+            }
+            let Ok(mut s) = std::net::TcpStream::connect(ep.addr) else { continue };
+            let _ = s.set_read_timeout(Some(Duration::from_millis(1500)));
+            let _ = s.write_all(&framed);
+            let mut buf = [0u8; 4096];
+            let ans = match s.read(&mut buf) {
+                Ok(0) | Err(_) => "deny",
+                Ok(_) if buf[0] == 0x16 => "allow",
+                Ok(_) => "other",
+            };
+            ctx.emit(&format!("c04 eval 1 {} none {}", ip_token(&peer), rt), ans);
+            ctx.stat(&format!("live_tcp_fragmented_hello_{}", ans));
+        }
         // ---- QUIC: the random of the handshake ----
         for k in 0..(if ctx.thorough() { 12 } else { 6 }) {
             let sni = snis[(k + li) % 4];
